@@ -290,13 +290,15 @@ func (c *reusableConn) closeWithErr(err error) {
 	if err == nil {
 		err = net.ErrClosed
 	}
-	c.closeOnce.Do(func() {
-		verifhook.Point("reuse.conn.closing")
-		c.t.m.Lock()
-		delete(c.t.conns, c)
-		delete(c.t.idleConns, c)
-		c.t.m.Unlock()
+	// Must not be done inside closeOnce: Close() calls closeWithErrByTransport
+	// (which waits for closeOnce) while holding t.m.
+	verifhook.Point("reuse.conn.closing")
+	c.t.m.Lock()
+	delete(c.t.conns, c)
+	delete(c.t.idleConns, c)
+	c.t.m.Unlock()
 
+	c.closeOnce.Do(func() {
 		c.closeErr = err
 		c.c.Close()
 		close(c.closeNotify)
